@@ -76,7 +76,7 @@ package connectconformance
 //@    tc.Request.Codec == 1 && (tc.Request.Compression == 1 || tc.Request.Compression == 2) && len(tc.Request.ServerTlsCert) == 0
 //@ func (*testCaseLibrary).filterGRPCImplTestCases
 //@   requires lib != nil && forall i int :: 0 <= i && i < len(testCases) ==> testCases[i] != nil && testCases[i].Request != nil
-//@   modifies conformancev1.ClientCompatRequest.TestName
+//@   modifies conformancev1.ClientCompatRequest.TestName, pbDecodedFrom, lastDecoded
 //@   ensures @identity !clientIsGRPCImpl && !serverIsGRPCImpl ==> result == testCases
 //@   ensures @supported clientIsGRPCImpl || serverIsGRPCImpl ==> forall i int :: 0 <= i && i < len(result) ==>
 //@        result[i] != nil && fresh(result[i]) && result[i].Request != nil && grpcImplOK(result[i], clientIsGRPCImpl)
